@@ -48,7 +48,7 @@ func VerifH_C18_a() {
 	v1, v2, v3 := vBytes("v1", 1), vBytes("v2", 1), vBytes("v3", 1)
 	vAssume(v1[0] != 0 || true)
 	// distinct keys here; coinciding keys are the overwrite case below
-	vAssume(k1[0] != k2[0] && k1[0] != k3[0] && k2[0] != k3[0])
+	vAssume(string(k1) != string(k2) && string(k1) != string(k3) && string(k2) != string(k3))
 	a, b := new(Trie), new(Trie)
 	a.Update(k1, v1)
 	a.Update(k2, v2)
@@ -73,11 +73,15 @@ func VerifH_C18_a() {
 	c := new(Trie)
 	c.Update(k1, v1)
 	c.Update(k2, v2)
+	// a copy of the trie taken before the delete (what SecureTrie.Copy / CopyTrie / StateDB.Copy do:
+	// a struct copy sharing nodes) must not be affected by it
+	cp := *a
 	if vBool("deleteByEmptyValue") {
 		a.Update(k3, nil)
 	} else {
 		a.Delete(k3)
 	}
+	vAssert("copy/unaffected-by-delete-in-the-original", sameShape(cp.root, b.root) && string(cp.Get(k3)) == string(v3) && string(cp.Get(k1)) == string(v1) && string(cp.Get(k2)) == string(v2))
 	vAssert("history/delete-restores-earlier-structure", sameShape(a.root, c.root))
 	vAssert("content/deleted-key-absent", a.Get(k3) == nil && string(a.Get(k1)) == string(v1) && string(a.Get(k2)) == string(v2))
 	// overwrite: final value wins, structure as if written once
@@ -91,4 +95,104 @@ func VerifH_C18_a() {
 	a.Delete(k1)
 	a.Delete(k2)
 	vAssert("history/all-deleted-is-empty", a.root == nil)
+}
+
+// H-C18-d: a copy of a trie (struct copy sharing nodes, as SecureTrie.Copy / CopyTrie / StateDB.Copy
+// make) is a snapshot: later inserts and deletes in the original never change what the copy holds.
+// Two-byte keys (four nibbles) with a common prefix of 0..3 nibbles, an optional third key, arbitrary
+// values; the second key is inserted (splitting a leaf below the shared prefix), the trie is copied,
+// then the original deletes one of the keys or overwrites / inserts: the copy still returns every
+// value it had and its structure equals a trie freshly built with the same content; the original
+// has the structure of a trie freshly built with its new content.
+func VerifH_C18_d() {
+	k1 := []byte{0x12, 0x34}
+	var k2 []byte
+	switch vLen("sharedPrefixNibbles", 3) {
+	case 0:
+		k2 = []byte{0x9b, 0xc7}
+	case 1:
+		k2 = []byte{0x1a, 0x57}
+	case 2:
+		k2 = []byte{0x12, 0xa7}
+	default:
+		k2 = []byte{0x12, 0x39}
+	}
+	k3 := []byte{0x12, 0xff}
+	v1, v2, v3 := vBytes("v1", 1), vBytes("v2", 1), vBytes("v3", 1)
+	third := vBool("thirdKey")
+	build := func(with1, with2, with3 bool) *Trie {
+		t := new(Trie)
+		if with1 {
+			t.Update(k1, v1)
+		}
+		if with3 && third {
+			t.Update(k3, v3)
+		}
+		if with2 {
+			t.Update(k2, v2)
+		}
+		return t
+	}
+	orig := build(true, true, true)
+	cp := *orig
+	var after *Trie
+	switch vLen("laterOperation", 3) {
+	case 0:
+		vFact("later", "delete-second-key")
+		orig.Delete(k2)
+		after = build(true, false, true)
+	case 1:
+		vFact("later", "delete-first-key")
+		orig.Delete(k1)
+		after = build(false, true, true)
+	case 2:
+		vFact("later", "overwrite-second-key")
+		w := vBytes("w", 1)
+		orig.Update(k2, w)
+		after = new(Trie)
+		after.Update(k1, v1)
+		if third {
+			after.Update(k3, v3)
+		}
+		after.Update(k2, w)
+	default:
+		vFact("later", "insert-a-new-key")
+		k4 := []byte{0x12, 0x3b}
+		w := vBytes("w", 1)
+		orig.Update(k4, w)
+		after = build(true, true, true)
+		after.Update(k4, w)
+	}
+	vReach("modified")
+	ref := build(true, true, true)
+	vAssert("copy/content-unchanged", string(cp.Get(k1)) == string(v1) && string(cp.Get(k2)) == string(v2) && (!third || string(cp.Get(k3)) == string(v3)))
+	vAssert("copy/structure-unchanged", sameShape(cp.root, ref.root))
+	vAssert("original/structure-depends-only-on-content", sameShape(orig.root, after.root))
+}
+
+// H-C18-e: the streaming trie (StackTrie, used for transaction / receipt / ETX roots) and the full
+// trie compute the same root for the same content. A list of 1..3 items under the keys DeriveSha uses
+// (RLP of the index: 0x01, 0x02, then 0x80 for index 0), each value of arbitrary length 1..9 bytes
+// and arbitrary content: StackTrie.Hash() == Trie.Hash(). (Node encodings and the embed-or-hash
+// boundary at 32 bytes are executed from the real code; keccak is a collision-free uninterpreted
+// function, so equal roots mean byte-identical root node encodings.)
+//
+// verif:bounds split=64 decisions=400 paths=20000
+func VerifH_C18_e() {
+	n := 1 + vLen("extraItems", 2)
+	keys := [][]byte{{0x01}, {0x02}, {0x80}}
+	if n == 1 {
+		keys = [][]byte{{0x80}}
+	} else if n == 2 {
+		keys = [][]byte{{0x01}, {0x80}}
+	}
+	st := NewStackTrie(nil)
+	tr := new(Trie)
+	for i := 0; i < n; i++ {
+		v := vBytes("value"+string(rune('A'+i)), 1+vLen("extraLen"+string(rune('A'+i)), 8))
+		st.Update(keys[i], v)
+		tr.Update(keys[i], v)
+	}
+	vReach("built")
+	vAssert("root/stacktrie-equals-trie", st.Hash() == tr.Hash())
 }
